@@ -223,18 +223,27 @@ Theorem C15_type_errors_located : forall fuel r e more,
                     Sylt.Types.TyGraph.e_span x = Sylt.Syntax.Resolved.span_zero 0)) (e :: more).
 Proof. exact Sylt.Types.ErrLoc.typecheck_errors_located. Qed.
 
-(* type_first_error_is_first.  The top level is checked statement by statement, in the order name resolution and
-   dependency ordering left them in: if the statements l1 check (state s1) and the next statement fails, the type
-   checker returns exactly that error, whatever follows; conversely a returned error is the error of some statement
-   all of whose predecessors checked, or comes from the check of `start` after all statements checked. *)
-Theorem C15_type_first_error_is_first : forall fuel vars l1 st l2 u s1 e more,
+(* type_first_error_is_first.  The top level is checked statement by statement, in the order check_order: since /repo
+   3c0758d the type declarations (blobs and enums) once, in the order name resolution and dependency ordering left them
+   in, then all the statements in that order (check_order stmts = filter is_type_decl stmts ++ stmts; for a program
+   without type declarations it is stmts: C15_type_check_order).  If the statements l1 of that sequence check (state
+   s1) and the next one fails, the type checker returns exactly that error, whatever follows; conversely a returned
+   error is the error of some statement of the sequence all of whose predecessors checked, or comes from the check of
+   `start` after all of them checked. *)
+Theorem C15_type_check_order : forall stmts,
+  Sylt.Types.TcInv.check_order stmts = (filter Sylt.Types.Tc.is_type_decl stmts ++ stmts)%list /\
+  (forallb (fun st => negb (Sylt.Types.Tc.is_type_decl st)) stmts = true -> Sylt.Types.TcInv.check_order stmts = stmts).
+Proof. intros stmts. split; [reflexivity|apply Sylt.Types.TcInv.check_order_no_decl]. Qed.
+
+Theorem C15_type_first_error_is_first : forall fuel vars stmts l1 st l2 u s1 e more,
   let kinds := Sylt.Types.Tc.kinds_of vars 1 (FMapPositive.PositiveMap.empty Sylt.Syntax.Resolved.varkind) in
   let outer := fun s => Sylt.Types.Tc.outer_statement kinds (Sylt.Types.Tc.gfix fuel)
                           (Sylt.Types.Tc.afix kinds (Sylt.Types.Tc.gfix fuel) fuel) s Sylt.Types.Tc.ctx_new in
+  Sylt.Types.TcInv.check_order stmts = (l1 ++ st :: l2)%list ->
   Sylt.Types.TyGraph.bind (Sylt.Types.TyGraph.init_vars (length vars)) (fun _ => Sylt.Types.TyGraph.iterM outer l1)
     Sylt.Types.TyGraph.empty_st = Sylt.Types.TyGraph.Ok (u, s1) ->
   outer st s1 = Sylt.Types.TyGraph.Err e more ->
-  Sylt.Types.Tc.typecheck fuel (Sylt.Syntax.Resolved.mkResolved vars (l1 ++ st :: l2)) = Sylt.Types.TyGraph.Err e more.
+  Sylt.Types.Tc.typecheck fuel (Sylt.Syntax.Resolved.mkResolved vars stmts) = Sylt.Types.TyGraph.Err e more.
 Proof. exact Sylt.Types.ErrLoc.typecheck_first_error. Qed.
 
 Theorem C15_type_reported_error_is_first : forall fuel vars stmts e more,
@@ -242,12 +251,12 @@ Theorem C15_type_reported_error_is_first : forall fuel vars stmts e more,
   let outer := fun s => Sylt.Types.Tc.outer_statement kinds (Sylt.Types.Tc.gfix fuel)
                           (Sylt.Types.Tc.afix kinds (Sylt.Types.Tc.gfix fuel) fuel) s Sylt.Types.Tc.ctx_new in
   Sylt.Types.Tc.typecheck fuel (Sylt.Syntax.Resolved.mkResolved vars stmts) = Sylt.Types.TyGraph.Err e more ->
-  (exists l1 st l2 u s1, stmts = l1 ++ st :: l2 /\
+  (exists l1 st l2 u s1, Sylt.Types.TcInv.check_order stmts = (l1 ++ st :: l2)%list /\
       Sylt.Types.TyGraph.bind (Sylt.Types.TyGraph.init_vars (length vars)) (fun _ => Sylt.Types.TyGraph.iterM outer l1)
         Sylt.Types.TyGraph.empty_st = Sylt.Types.TyGraph.Ok (u, s1) /\
       outer st s1 = Sylt.Types.TyGraph.Err e more) \/
   (exists u s1, Sylt.Types.TyGraph.bind (Sylt.Types.TyGraph.init_vars (length vars))
-                  (fun _ => Sylt.Types.TyGraph.iterM outer stmts) Sylt.Types.TyGraph.empty_st = Sylt.Types.TyGraph.Ok (u, s1)).
+                  (fun _ => Sylt.Types.TyGraph.iterM outer (Sylt.Types.TcInv.check_order stmts)) Sylt.Types.TyGraph.empty_st = Sylt.Types.TyGraph.Ok (u, s1)).
 Proof. exact Sylt.Types.ErrLoc.typecheck_error_is_first. Qed.
 
 (* the same inside a block (fn expression_block folds over the statements of a function / branch / loop body) *)
@@ -257,6 +266,7 @@ Theorem C15_type_block_first_error : forall {A B} (f : B -> A -> Sylt.Types.TyGr
 Proof. intros A B. exact (@Sylt.Types.ErrLoc.foldM_first_error A B). Qed.
 
 Print Assumptions C15_type_errors_located.
+Print Assumptions C15_type_check_order.
 Print Assumptions C15_type_first_error_is_first.
 Print Assumptions C15_type_reported_error_is_first.
 Print Assumptions C15_type_block_first_error.
